@@ -167,6 +167,38 @@ Proof.
   rewrite (run_app_eq s ";" QBare QBare [] QBetween [TokEnd; Semi] Hr); reflexivity.
 Qed.
 
+(* ---------------------------------------------------------------- the selector table of rewritePath *)
+
+Lemma vs_path_glued_safe : safe_strict vs_path QBare bare_states.
+Proof. apply safe_strict_by_check. vm_compute. reflexivity. Qed.
+
+(* every row but the two of F65: the language the validator selects is neutral at the site the generator
+   selects -- in particular the EXACT-match row at top level: strict language, bare site *)
+Theorem rewrite_path_safe : forall k l s,
+    rewrite_path_row_ok k l = true -> matches (rewrite_path_lang k l) s = true ->
+    exists q', run (site_state (rewrite_path_site k l)) s = (q', []) /\ In q' (site_ends (rewrite_path_site k l)).
+Proof.
+  intros k l s Hok Hm.
+  destruct k, l; cbn in Hok; try discriminate Hok; cbn in Hm |- *;
+    first [ exists QDQ; split; [apply escaped_dq_safe; exact Hm | now left]
+          | exact (vs_path_glued_safe s Hm) ].
+Qed.
+
+Corollary rewrite_path_exact_top : forall s, matches (rewrite_path_lang PKExact LTop) s = true ->
+    exists q', run QBare s = (q', []) /\ In q' [QBare; QVar].
+Proof. intros s Hm. exact (rewrite_path_safe PKExact LTop s eq_refl Hm). Qed.
+
+(* F65: the default action of a route with matches is validated with the bare-word language, which accepts a
+   double quote, and rendered inside double quotes *)
+Theorem rewrite_path_default_action_refuted : forall k, is_regex_kind k = false ->
+    exists s, rewrite_path_accepts k LTopWithMatches s = true /\
+              rewrite_path_site k LTopWithMatches = SInDQ /\
+              run QDQ s = (QNeedSpace, [TokEnd]).
+Proof.
+  intros k Hk. exists ("/rw" ++ String ch_dq EmptyString).
+  destruct k; try discriminate Hk; vm_compute; repeat split; reflexivity.
+Qed.
+
 (* nginx.org/limit-req-key: printed at token start after  limit_req_zone  *)
 Theorem limit_req_key_bare_safe : safe_strict limit_req_key QBetween bare_states.
 Proof. apply safe_strict_by_check. vm_compute. reflexivity. Qed.
